@@ -50,6 +50,11 @@ CHECKS = {
         technique='exhaustive enumeration of all rooted object graphs <= 3 nodes (list / dict / tuple-holding-list, out-degree <= 2, self-loops, sharing) printed by the real code and compared, as ASTs, with a reference DFS carrying the on-path set; exhaustive re-print / aborted-print / pair histories for residue',
         text='Every rooted directed multigraph up to three nodes (plus out-degree-1 graphs on four nodes and ring/lollipop/diamond families up to eight nodes in the thorough tier) is printed under a watchdog; recursion markers are rewritten to node identifiers and the output must have exactly the AST of a reference DFS that marks back-edges only, so a marker on merely shared structure, or a missing one, is a structural difference. Histories (print twice; abort a print through a printer returning a non-Doc, then print again; g1, g2, g1 over all small pairs) must reproduce the first-call output, and a probe printer checks that the visited set has exactly the DFS depth.',
         note='trusted: reference DFS (20 lines); identity through id() in the marker text; termination is decided by a 10 s watchdog per print'),
+    'C14': dict(
+        category='fault_enumeration', design_ref='DESIGN.md 4/C14',
+        technique='exhaustive single-fault (thorough: ordered double-fault) injection at every numbered printer invocation x 12 exception classes over all small trees of instrumented user objects with every comment / trailing_comment placement; differential oracle against the run in which that invocation returns repr(value)',
+        text='One fault-free run numbers the printer invocations of a tree; then each invocation in turn raises each exception class, and the output must equal the output of the run where that invocation returns repr(value) (so every other part is exactly what it would have been), with exactly one warning naming the printer, an unaffected fault-free print afterwards, and ValueError for a non-Doc return. Every tree up to the node bound, every wrapper placement and every fault point is enumerated, which is what reaches the trailing-comment path where only TypeError used to be caught.',
+        note='trusted: the stub run as definition of containment; exception classes are a fixed list of Exception subclasses (BaseException-only classes are outside the statement); bound: trees <= 3 nodes single faults (quick), <= 4 nodes plus fault pairs (thorough)'),
     'C15': dict(
         category='model_checking', design_ref='DESIGN.md 4/C15',
         technique='explicit-state BFS over all operation histories up to a depth bound on the real registries (57 operations on a 6-class lattice with multiple inheritance), states merged by a canonical (implementation, reference-model) abstraction, every transition compared with the reference model, merges validated differentially',
